@@ -1,12 +1,15 @@
 """Per-property wiring: which contract modules (T1) and which bounded driver."""
 
 T1_MODULES = {
+    "C17": ["vt.contracts.syntactic"],
+    "C16": ["vt.contracts.syntactic"],
+    "C13": ["vt.contracts.syntactic"],
     "C01": ["vt.contracts.legs_rules"],
-    "C02": ["vt.contracts.legs_rules"],
+    "C02": ["vt.contracts.legs_rules", "vt.contracts.syntactic"],
     "C03": ["vt.contracts.utils_maxcounter", "vt.contracts.legs_rules", "vt.contracts.core_stats"],
-    "C04": ["vt.contracts.utils_maxcounter", "vt.contracts.legs_rules", "vt.contracts.core_stats"],
+    "C04": ["vt.contracts.utils_maxcounter", "vt.contracts.legs_rules", "vt.contracts.core_stats", "vt.contracts.syntactic"],
     "C06": ["vt.contracts.core_slicing"],
-    "C07": ["vt.contracts.utils_maxcounter"],
+    "C07": ["vt.contracts.utils_maxcounter", "vt.contracts.syntactic"],
     "C09": ["vt.contracts.con_cost"],
     "C10": ["vt.contracts.path_convert"],
     "C14": ["vt.contracts.reusable_policy"],
